@@ -661,6 +661,10 @@ def check_reader(rep, R):
             rep.check(okd, 'C10.R4', w, 'rank_lecturer is set for every pair of every student, unconditionally under -twopl %s' % cfg,
                       got='guards=%s loops=%s' % ([show(c.cond)[:60] for c in ifs], [show(c.binder[3])[:40] for c in fors]), construct='rank_lecturer coverage %s' % cfg, loc=e.loc)
             v = idnorm(R.repo, e.value)
+            if v[0] == 'idx' and v[1] in (('dict', ()), CALL(S('dict'), [])):
+                rep.fail('C10.R4', w, 'the ranks looked up were recorded: every second-side line adds its (lecturer, student) ranks to the table %s' % cfg, got='the table looked up is the empty dictionary',
+                         want='table.update(ranks of the line)', construct='rank table never filled %s' % cfg, loc=e.loc)
+                continue
             okk = v[0] == 'idx' and v[2] == ('tuple', (A(pair, 'lecturerID'), A(pair, 'studentID')))
             if not okk and v[0] == 'idx' and v[2][0] == 'tuple' and len(v[2][1]) == 2 and v[2][1][1] == A(pair, 'studentID'):
                 # the lecturer id read back as the value stored for this pair (R6 decides that value)
@@ -671,6 +675,11 @@ def check_reader(rep, R):
                         okk = True
             rep.check(okk, 'C10.R4', w, 'the rank looked up is that of (own lecturer, own student) %s' % cfg, got=show(v)[-80:], want='ranks[(pair.lecturerID, pair.studentID)]',
                       construct='rank key ' + (show(v[2]).replace(show(pair), 'pair') if v[0] == 'idx' else show(v)[:60]), loc=e.loc)
+    # ---- R6: the project -> lecturer table is kept on the model (the project listing prints it) ----
+    pl_stores = [e for e, c in R.all_events() if e.kind == 'store' and e.target == A(R.model, 'proj_lecturers') and e.value != ('list', ())]
+    pl_apps = R.appends('proj_lecturers')
+    rep.check(bool(pl_stores) or bool(pl_apps), 'C10.R6', w, 'the lecturer of every project is kept on the model (model.proj_lecturers) %s' % cfg, got='model.proj_lecturers is never filled',
+              want='model.proj_lecturers = <lecturer of each project line>', construct='proj_lecturers never filled')
     # ---- R6: lecturer of a pair ----
     ls = [(e, c) for e, c in iter_effects(R.effs) if e.kind == 'store' and e.target[0] == 'attr' and e.target[2] == 'lecturerID']
     if not ls:
